@@ -9,6 +9,7 @@ import (
 	"flag"
 	"fmt"
 	"os"
+	"os/exec"
 	"runtime"
 	"sort"
 	"sync"
@@ -83,6 +84,8 @@ type Ctx struct {
 	VerifDir string
 	Seed     int64
 	NCPU     int
+	Shard    int // this process handles jobs with index % NShard == Shard
+	NShard   int
 
 	evals   int64
 	mu      sync.Mutex
@@ -210,13 +213,21 @@ func main() {
 	out := flag.String("out", "", "result file")
 	seed := flag.Int64("seed", 0, "VERIF_SEED")
 	ncpu := flag.Int("ncpu", runtime.NumCPU(), "parallelism")
+	shard := flag.Int("shard", 0, "shard index (process-level sharding)")
+	nshard := flag.Int("nshard", 0, "number of shards; 0 = decide automatically")
 	flag.Parse()
 
 	if h, ok := subcommands[*prop]; ok {
 		os.Exit(h(flag.Args()))
 	}
 
-	c := &Ctx{Prop: *prop, Tier: *tier, Thorough: *tier == "thorough", Aux: *verif + "/build", VerifDir: *verif, Seed: *seed, NCPU: *ncpu}
+	if sharded[*prop] && *nshard == 0 && *ncpu > 1 {
+		os.Exit(runSharded(*prop, *tier, *verif, *out, *seed, *ncpu))
+	}
+	if *nshard == 0 {
+		*nshard = 1
+	}
+	c := &Ctx{Prop: *prop, Tier: *tier, Thorough: *tier == "thorough", Aux: *verif + "/build", VerifDir: *verif, Seed: *seed, NCPU: *ncpu, Shard: *shard, NShard: *nshard}
 	c.res = Result{Property: *prop, Tier: *tier, Extra: map[string]interface{}{}, KnownHits: map[string]int64{}, Exhaustive: true, Samples: []interface{}{}, Violations: []Violation{}}
 	c.known = map[string]bool{}
 	if data, err := os.ReadFile(*verif + "/known_findings.json"); err == nil {
@@ -275,3 +286,95 @@ func main() {
 // subcommands are process-level entry points used by the history and
 // schedule explorers (one fresh process per execution).
 var subcommands = map[string]func(args []string) int{}
+
+// sharded lists checks whose state (the process-global randomness source)
+// forbids in-process parallelism: they are sharded over child processes.
+var sharded = map[string]bool{}
+
+func runSharded(prop, tier, verif, out string, seed int64, n int) int {
+	t0 := time.Now()
+	dir, err := os.MkdirTemp(os.Getenv("VERIF_SCRATCH_DIR"), "shards-")
+	if err != nil {
+		fmt.Fprintln(os.Stderr, err)
+		return 2
+	}
+	defer os.RemoveAll(dir)
+	var wg sync.WaitGroup
+	fail := make([]error, n)
+	for i := 0; i < n; i++ {
+		wg.Add(1)
+		go func(i int) {
+			defer wg.Done()
+			cmd := exec.Command(os.Args[0], "-prop", prop, "-tier", tier, "-verif", verif, "-seed", fmt.Sprint(seed), "-ncpu", "1",
+				"-shard", fmt.Sprint(i), "-nshard", fmt.Sprint(n), "-out", fmt.Sprintf("%s/%d.json", dir, i))
+			cmd.Stderr = os.Stderr
+			cmd.Env = append(os.Environ(), "GOMAXPROCS=2")
+			fail[i] = cmd.Run()
+		}(i)
+	}
+	wg.Wait()
+	var merged Result
+	for i := 0; i < n; i++ {
+		data, err := os.ReadFile(fmt.Sprintf("%s/%d.json", dir, i))
+		if err != nil {
+			fmt.Fprintf(os.Stderr, "shard %d: %v %v\n", i, fail[i], err)
+			return 2
+		}
+		var r Result
+		if err := json.Unmarshal(data, &r); err != nil {
+			fmt.Fprintln(os.Stderr, err)
+			return 2
+		}
+		if i == 0 {
+			merged = r
+			continue
+		}
+		merged.Evaluations += r.Evaluations
+		merged.Distinct += r.Distinct
+		merged.ViolationCount += r.ViolationCount
+		merged.Exhaustive = merged.Exhaustive && r.Exhaustive
+		if merged.MachineryError == "" {
+			merged.MachineryError = r.MachineryError
+		}
+		for _, v := range r.Violations {
+			if len(merged.Violations) < maxKept {
+				merged.Violations = append(merged.Violations, v)
+			}
+		}
+		for k, v := range r.KnownHits {
+			merged.KnownHits[k] += v
+		}
+		for _, s := range r.Samples {
+			if len(merged.Samples) < 8 {
+				merged.Samples = append(merged.Samples, s)
+			}
+		}
+		for k, v := range r.Extra {
+			mv, ok1 := merged.Extra[k].(map[string]interface{})
+			rv, ok2 := v.(map[string]interface{})
+			if ok1 && ok2 {
+				for kk, x := range rv {
+					a, _ := mv[kk].(float64)
+					b, _ := x.(float64)
+					mv[kk] = a + b
+				}
+			} else if _, ok := merged.Extra[k]; !ok {
+				merged.Extra[k] = v
+			}
+		}
+	}
+	merged.Extra["process_shards"] = n
+	merged.WallS = time.Since(t0).Seconds()
+	sort.Slice(merged.Violations, func(i, j int) bool { return merged.Violations[i].Key < merged.Violations[j].Key })
+	data, _ := json.MarshalIndent(&merged, "", " ")
+	if out == "" {
+		os.Stdout.Write(data)
+	} else if err := os.WriteFile(out, data, 0644); err != nil {
+		fmt.Fprintln(os.Stderr, err)
+		return 2
+	}
+	if merged.MachineryError != "" {
+		return 2
+	}
+	return 0
+}
